@@ -28,6 +28,20 @@ claim('C02', 'typestate + must-check gate analysis on SSA, finite decision table
       'execution error, missing/failed verdict) is fail-closed; native identity/revocation checks are routed by capability and skip; critical extended attributes are accounted for when no plugin is named and when the '
       'plugin ran. The path "plugin named but not executed" is a known finding pinned by a stable test. Clause-wise structure implies the decision table and monotonicity; the table is not enumerated as values.', 'DESIGN.md 2/C02')
 
+claim('C03', 'who-may-call inventory + effect-site gate analysis + provenance by access-path labels on SSA',
+      'Static, all-paths: the trust store is read at exactly one product site; that site is reachable only for listed stores whose type prefix equals the wanted type, with the name taken from the listed entry; '
+      'a load error or malformed entry fails the whole load with a nil slice; the wanted type is a constant selected by the verified envelope\'s signing scheme (ca/signingAuthority; tsa only from the timestamp path); '
+      'the stores, identities, name and options handed down belong to the single selected statement; VerifyAuthenticity receives exactly the loaded certificates and an empty set or error is a failing result. '
+      'Necessary structural conditions for every placement of certificates in stores; certificate identity itself is trusted to notation-core-go.', 'DESIGN.md 2/C03')
+claim('C04', 'instruction whitelist + per-iteration must-check gates + argument provenance on SSA',
+      'Static, all-paths: the identity check reads the chain only at constant index 0; it succeeds only through the wildcard or a true subset test whose first argument is a parsed listed identity and whose second is the parsed subject of certs[0]; '
+      'the subset function ranges over the identity, performs only comma-ok lookups and string equality (no call: no prefix/fold), and returns true only after the loop; every unparsable identity/subject, missing separator, empty value and '
+      'missing x509 identity is fail-closed; the DN parser rejects =#, multi-valued and duplicate RDNs, aliases S to ST and demands C, ST, O. RFC 4514 parsing is trusted to go-ldap.', 'DESIGN.md 2/C04')
+claim('C05', 'abstract interpretation over a finite domain with loop fixpoint (aggregator) + must-check gates + argument provenance',
+      'Static: the aggregation function is interpreted abstractly (per-certificate result in {OK, NonRevokable, Unknown, Revoked, other}, two-point counter abstraction, ghost bits) to a fixpoint: in every reachable abstract state a Revoked '
+      'certificate makes the aggregate Revoked and any non-OK certificate makes it non-OK; the loop is cut by equal lengths, visits all indices and indexes results and chain alike; both validator interfaces get the unsliced chain and the same '
+      'signing time (zero unless signing-authority); a validator error or any aggregate other than OK sets the result\'s Error; the constructor leaves a non-nil validator or client. Covers all result vectors as abstract states, not as enumerated values; OCSP/CRL are trusted.', 'DESIGN.md 2/C05')
+
 NA_REASON = {}
 
 def main():
